@@ -120,7 +120,7 @@ enum {
     OP_JSON0, /* core: 0..17 */
     OP_JSON1, OP_JSON2, OP_SET_G1, OP_SET_G2, OP_SET_BAD, OP_SET_UNDEF, OP_SET_UNKW, OP_ALIGN_T1, OP_ALIGN_EMPTY, OP_ALIGN_UNK, OP_ADD_NEW,
     OP_ADD_ALT, OP_ADD_DUP, OP_ADD_ALT_NOBASE, OP_ADD_BADPHONE, OP_ADD_EMPTYWORD, OP_ADD_EMPTYPRON, OP_ADD_NEW_NOUPDATE, OP_ADD_ALT_DUP, OP_LOOKUP,
-    OP_GETCMN0, OP_GETCMN1, OP_SETCMN, OP_REINIT, NOPS
+    OP_GETCMN0, OP_GETCMN1, OP_SETCMN, OP_REINIT, OP_ADD_MANY, NOPS
 };
 static const char *const OPNAME[NOPS] = {
     "start", "procA", "end", "hyp", "segwalk", "alignment", "free",
@@ -128,7 +128,7 @@ static const char *const OPNAME[NOPS] = {
     "json0",
     "json1", "json2", "setG1", "setG2", "setBadSyntax", "setUndefRule", "setUnknownWord", "alignT1", "alignEmpty", "alignUnknown", "addNew",
     "addAlt", "addDup", "addAltNoBase", "addBadPhone", "addEmptyWord", "addEmptyPron", "addNewNoUpdate", "addAltTwice", "lookup",
-    "getcmn0", "getcmn1", "setcmn", "reinit",
+    "getcmn0", "getcmn1", "setcmn", "reinit", "addMany",
 };
 #define N_PROTO 7
 #define N_CORE 18
@@ -137,6 +137,7 @@ enum { ST_IDLE, ST_ACTIVE, ST_ENDED };
 typedef struct {
     int st, has_search, freed;
     int g1; /* the active grammar is G1, loaded by the last successful grammar operation */
+    int many; /* the NMANY generated words w0000.. are in the dictionary (growth past the preallocated entries) */
     /* reference dictionary: words the history added successfully */
     struct {
         const char *word, *phones;
@@ -146,10 +147,14 @@ typedef struct {
 
 static const char *const LOOKUPS[] = { "go", "forward", "ten", "a(2)", "zed", "go(2)", "zed2", "nobase(2)", "bad", "empt", "<sil>" };
 #define NLOOK (int)(sizeof LOOKUPS / sizeof *LOOKUPS)
+#define NMANY 4200
+static const char *const MANYPRON[8] = { "G OW", "T EH N", "M IY", "F AO R", "S T AA P", "W AH N", "T UW", "Z EH D" };
 static const char *
 model_lookup(const model_t *m, const char *w)
 {
     int i;
+    if (w[0] == 'w' && strlen(w) == 5 && strspn(w + 1, "0123456789") == 4)
+        return m->many && atoi(w + 1) < NMANY ? MANYPRON[atoi(w + 1) % 8] : NULL;
     static const char *const base[][2] = { { "go", "G OW" }, { "forward", "F AO R W ER D" }, { "ten", "T EH N" }, { "a(2)", "EY" }, { "<sil>", "SIL" } };
     for (i = 0; i < 5; i++)
         if (strcmp(base[i][0], w) == 0)
@@ -171,6 +176,21 @@ check_dict(const model_t *m, const char *cd, const char *after)
         if ((got == NULL) != (exp == NULL) || (got && strcmp(got, exp) != 0)) {
             mc_viol("C16/lookup-differs-from-reference-dictionary", cd, "after %s: lookup(%s) = %s, reference dictionary says %s", after, LOOKUPS[i],
                     got ? got : "NULL", exp ? exp : "NULL");
+            ckd_free(got);
+            return -1;
+        }
+        ckd_free(got);
+    }
+    /* the generated words, all of them (the table has grown past its preallocated size when they are present) */
+    for (i = 0; i < NMANY; i += m->many ? 1 : 1050) {
+        char w[8], *got;
+        const char *exp;
+        snprintf(w, sizeof w, "w%04d", i);
+        got = decoder_lookup_word(D, w);
+        exp = model_lookup(m, w);
+        if ((got == NULL) != (exp == NULL) || (got && strcmp(got, exp) != 0)) {
+            mc_viol("C16/lookup-differs-from-reference-dictionary", cd, "after %s: lookup(%s) = %s, reference dictionary says %s", after, w, got ? got : "NULL",
+                    exp ? exp : "NULL");
             ckd_free(got);
             return -1;
         }
@@ -242,7 +262,7 @@ apply_op(model_t *m, int op, const char *cd)
     if (m->freed)
         return 1;
     /* configuration belongs between utterances */
-    if (m->st == ST_ACTIVE && (op >= OP_SET_G1 && op <= OP_ADD_ALT_DUP))
+    if (m->st == ST_ACTIVE && ((op >= OP_SET_G1 && op <= OP_ADD_ALT_DUP) || op == OP_ADD_MANY))
         return 1;
     if (m->st == ST_ACTIVE && op == OP_REINIT)
         return 1;
@@ -395,6 +415,21 @@ apply_op(model_t *m, int op, const char *cd)
         return try_add(m, "", "G OW", 1, 0, cd, OPNAME[op]);
     case OP_ADD_EMPTYPRON:
         return try_add(m, "empt", "", 1, 0, cd, OPNAME[op]);
+    case OP_ADD_MANY: {
+        int k;
+        for (k = 0; k < NMANY; k++) {
+            char w[8];
+            snprintf(w, sizeof w, "w%04d", k);
+            rv = decoder_add_word(D, w, MANYPRON[k % 8], k == NMANY - 1);
+            if (P_C16 && (rv >= 0) != !m->many) {
+                mc_viol(m->many ? "C16/invalid-addition-accepted" : "C16/valid-addition-rejected", cd, "%s: decoder_add_word(\"%s\", \"%s\") returned %d", OPNAME[op], w,
+                        MANYPRON[k % 8], rv);
+                return -1;
+            }
+        }
+        m->many = 1;
+        break;
+    }
     case OP_LOOKUP: {
         char *p = decoder_lookup_word(D, "go");
         ckd_free(p);
@@ -415,6 +450,7 @@ apply_op(model_t *m, int op, const char *cd)
             return -1;
         m->has_search = 0; /* the configuration names no grammar */
         m->g1 = 0;
+        m->many = 0;
         m->st = ST_IDLE;
         m->nadded = 0; /* the dictionary is read again from its file */
         break;
@@ -669,6 +705,13 @@ run_hist(const hist_t *h)
             goto out;
         }
         /* accepted words are usable at once */
+        if (P_C16 && m.many) {
+            m.g1 = 0;
+            if (decoder_set_align_text(D, "go w4199 w0000") < 0 || decoder_set_jsgf_string(D, "#JSGF V1.0; grammar x; public <s> = go w4096 | w2047 ten;") < 0) {
+                mc_viol("C16/added-word-not-usable", cd, "the generated words were added successfully but a grammar or alignment text using them is refused");
+                goto out;
+            }
+        }
         if (P_C16)
             for (i = 0; i < m.nadded; i++) {
                 char g[256];
@@ -849,7 +892,7 @@ main(int argc, char **argv)
     else if (strcmp(set, "dict") == 0) {
         /* dictionary operations plus what is needed to use the words */
         static const int ops[] = { OP_ADD_NEW, OP_ADD_ALT, OP_ADD_DUP, OP_ADD_ALT_NOBASE, OP_ADD_BADPHONE, OP_ADD_EMPTYWORD, OP_ADD_EMPTYPRON, OP_ADD_NEW_NOUPDATE,
-                                   OP_ADD_ALT_DUP, OP_LOOKUP, OP_SET_G2, OP_ALIGN_T1, OP_START, OP_PROC_A, OP_END, OP_REINIT };
+                                   OP_ADD_ALT_DUP, OP_LOOKUP, OP_SET_G2, OP_ALIGN_T1, OP_START, OP_PROC_A, OP_END, OP_REINIT, OP_ADD_MANY };
         SET_N = (int)(sizeof ops / sizeof *ops);
         for (i = 0; i < SET_N; i++)
             SETMAP[i] = ops[i];
